@@ -1074,11 +1074,11 @@ func (p *printer) expr1(expr ast.Expr, prec1, depth int) {
 			p.print(token.RBRACE)
 		}
 	case *ast.ErrWrapExpr:
-		p.expr(x.X)
+		p.expr1(x.X, token.HighestPrec, depth) // the operand is a primary expression
 		p.print(x.Tok)
 		if x.Default != nil {
 			p.print(token.COLON)
-			p.expr(x.Default)
+			p.expr1(x.Default, token.UnaryPrec, depth) // the default is a unary expression
 		}
 	case *ast.LambdaExpr:
 		if x.LhsHasParen {
